@@ -261,9 +261,39 @@ func Rewrite(filename string, src []byte, pkg string, c pkgConf) ([]byte, bool, 
 		return nil, false, err
 	}
 	off := func(p token.Pos) int { return fset.Position(p).Offset }
+	// enclosing function of a position (for stable, line-independent names)
+	type frange struct {
+		from, to token.Pos
+		name     string
+	}
+	var funcs []frange
+	for _, d := range f.Decls {
+		if fd, ok := d.(*ast.FuncDecl); ok {
+			name := fd.Name.Name
+			if fd.Recv != nil && len(fd.Recv.List) > 0 {
+				t := fd.Recv.List[0].Type
+				if st, ok := t.(*ast.StarExpr); ok {
+					t = st.X
+				}
+				if ix, ok := t.(*ast.IndexExpr); ok {
+					t = ix.X
+				}
+				if id, ok := t.(*ast.Ident); ok {
+					name = id.Name + "." + name
+				}
+			}
+			funcs = append(funcs, frange{fd.Pos(), fd.End(), name})
+		}
+	}
 	short := func(p token.Pos) string {
 		ps := fset.Position(p)
-		return pkg + "/" + filepath.Base(ps.Filename) + ":" + strconv.Itoa(ps.Line)
+		fn := ""
+		for _, fr := range funcs {
+			if p >= fr.from && p < fr.to {
+				fn = "(" + fr.name + ")"
+			}
+		}
+		return pkg + "/" + filepath.Base(ps.Filename) + ":" + strconv.Itoa(ps.Line) + fn
 	}
 	var edits []edit
 	add := func(o, d int, ins string) {
